@@ -12,6 +12,14 @@ Euclidean center distance, exact IoU (own rational half-plane clipper, closed fo
 symmetry, identical -> 1 / 0, disjoint -> 0, IoU3D <= IoU BEV, plane distance = RMS over the corners
 of the ground truth's nearest side, invariance under a common rotation about the ego (all scores) and
 a common translation (center distance, IoUs).
+
+Purity stream (kind "pure"): the scores are functions of the two boxes only.  The same two REAL objects, with their
+centres held in the containers the library itself produces (float64 ndarray from HomogeneousMatrix / TransformDict /
+convert_objects_to_base_link, rows of one buffer, int arrays, lists, tuples), are scored several times in different
+orders (cd->pd->iou, iou->cd, swapped after direct, through DynamicObjectWithPerceptionResult, random sequences).
+Every value must equal the value of freshly built tuple-position objects AND the exact Fraction value of the property
+text, repeated/swapped evaluations must agree, and the objects' position / orientation / size must be bit-identical
+before and after.  The 2-D objects of the "roi" stream are likewise scored again and through the result object.
 """
 from __future__ import annotations
 
@@ -29,6 +37,11 @@ RULE = (
     "dyadic centres and sizes; each pair also scored swapped, against itself, after a common rotation about the "
     "ego and after rotation + translation. 2-D: real DynamicObject2D pairs with integer ROIs: every ordered pair "
     "of a small window (thorough: exhaustively, quick: a sample) plus random large ones, each also shifted. "
+    "Purity: box pairs of the same families (positive sizes) with the centres stored as float64 ndarray (assigned / via the "
+    "constructor / two rows of one buffer), as produced by the library (convert_objects_to_base_link, TransformDict.transform), "
+    "int64 ndarray, list or tuple; scored by a sequence of steps on the SAME two objects (11 fixed orders: cd-pd-iou, iou-cd, "
+    "each twice, direct then swapped, swapped first, plane distance first, DynamicObjectWithPerceptionResult first / twice / swapped / "
+    "after direct scores, plus random sequences of 3-8 steps out of 10); every container x order combination at least once. "
     "A case is non-trivial unless tagged degenerate; distinct = distinct canonical JSON of the case"
 )
 THEOREMS = [
@@ -62,6 +75,9 @@ ASSUMPTIONS = [
     "plane distance is compared only when the choice of the two nearest GT corners is decided by a margin >= 1e-7 "
     "or is reproduced exactly by the float distances (skipped and counted otherwise)",
     "positive sizes for the property clauses (zero sizes only exercise the ZeroDivisionError correspondence)",
+    "purity stream: 'unchanged inputs' compares the VALUES of state.position / orientation / shape.size bitwise (container type and "
+    "dtype are not compared); for library-converted centres (float noise of the map->base_link conversion) the exact reference is the "
+    "un-moved pair with tolerance 1e-6, the freshly-built-object reference uses the converted values with 1e-9",
 ]
 
 TOL = 1e-9
@@ -173,7 +189,7 @@ def _label():
     return _LAB
 
 
-def mk3d(box):
+def mk3d(box, position=None):
     from perception_eval.common.object import DynamicObject
     from perception_eval.common.schema import FrameID
     from perception_eval.common.shape import Shape, ShapeType
@@ -182,7 +198,7 @@ def mk3d(box):
     a, b = box["rot"]
     n = math.hypot(a, b)
     return DynamicObject(
-        unix_time=0, frame_id=FrameID.BASE_LINK, position=tuple(float(v) for v in box["pos"]),
+        unix_time=0, frame_id=FrameID.BASE_LINK, position=tuple(float(v) for v in box["pos"]) if position is None else position,
         orientation=Quaternion(w=a / n, x=0.0, y=0.0, z=b / n),
         shape=Shape(ShapeType.BOUNDING_BOX, tuple(float(v) for v in box["size"])),
         velocity=(0.0, 0.0, 0.0), semantic_score=0.5, semantic_label=_label(),
@@ -304,8 +320,150 @@ def run_impl(case):
         ra2, rb2 = [ra[0] + dx, ra[1] + dy, ra[2], ra[3]], [rb[0] + dx, rb[1] + dy, rb[2], rb[3]]
         out["shift"] = sc(mk2d(ra2), mk2d(rb2))
         out["moved"] = {"est": ra2, "gt": rb2}
+        # ---- purity: the SAME two objects scored again after everything above, and through the result object
+        snap0 = [_snap2d(mk2d(ra)), _snap2d(mk2d(rb))]
+        out["again"] = sc(e, g)
+        out["result"] = _result_scores(e, g, ("cd", "iou2d"))
+        out["again_swap"] = sc(g, e)
+        snap1 = [_snap2d(e), _snap2d(g)]
+        out["roi_changed"] = None if snap0 == snap1 else {"before": snap0, "after": snap1}
         return out
+    if k == "pure":
+        return _run_pure(case)
     raise ValueError(k)
+
+
+# --------------------------------------------------------------------------- purity stream (real objects)
+
+_OPS = {"cd": "CenterDistanceMatching", "pd": "PlaneDistanceMatching", "iou2d": "IOU2dMatching", "iou3d": "IOU3dMatching"}
+_RES_ATTR = {"cd": "center_distance", "pd": "plane_distance", "iou2d": "iou_2d", "iou3d": "iou_3d"}
+
+
+def _result_scores(e, g, which=("cd", "pd", "iou2d", "iou3d")):
+    """the four scores as DynamicObjectWithPerceptionResult reports them (observe_at of the property)"""
+    from perception_eval.evaluation.result.object_result import DynamicObjectWithPerceptionResult
+
+    try:
+        r = DynamicObjectWithPerceptionResult(e, g)
+    except Exception as ex:  # noqa
+        return {k: {"err": type(ex).__name__} for k in which}
+    out = {}
+    for k in which:
+        try:
+            v = getattr(r, _RES_ATTR[k]).value
+            out[k] = None if v is None else float(v)
+        except Exception as ex:  # noqa
+            out[k] = {"err": type(ex).__name__}
+    return out
+
+
+def _snap2d(o):
+    r = o.roi
+    return [repr(tuple(r.offset)), repr(tuple(r.size)), repr(tuple(r.center)), repr(r.corners.tolist())]
+
+
+def _hex(seq):
+    return [float(x).hex() for x in seq]
+
+
+def _snap3d(o):
+    """the VALUES that enter the scores (bitwise, container/dtype-insensitive)"""
+    import numpy as np
+
+    st = o.state
+    return {"position": _hex(np.asarray(st.position).tolist()), "orientation": _hex(list(st.orientation.elements)),
+            "size": _hex(list(st.shape.size))}
+
+
+def _postype(o):
+    import numpy as np
+
+    p = o.state.position
+    return f"ndarray:{p.dtype}" if isinstance(p, np.ndarray) else type(p).__name__
+
+
+def _fresh(snap):
+    """freshly built object with TUPLE position from a snapshot"""
+    from perception_eval.common.object import DynamicObject
+    from perception_eval.common.schema import FrameID
+    from perception_eval.common.shape import Shape, ShapeType
+    from pyquaternion import Quaternion
+
+    f = lambda xs: tuple(float.fromhex(x) for x in xs)  # noqa
+    w, x, y, z = f(snap["orientation"])
+    return DynamicObject(unix_time=0, frame_id=FrameID.BASE_LINK, position=f(snap["position"]), orientation=Quaternion(w=w, x=x, y=y, z=z),
+                         shape=Shape(ShapeType.BOUNDING_BOX, f(snap["size"])), velocity=(0.0, 0.0, 0.0), semantic_score=0.5,
+                         semantic_label=_label())
+
+
+def _build_pure(case):
+    """the pair with its positions held in the container under test"""
+    import numpy as np
+
+    eb, gb, cont = case["est"], case["gt"], case["container"]
+    if cont in ("lib-converted", "lib-transform"):
+        from perception_eval.common.dataset import convert_objects_to_base_link
+        from perception_eval.common.schema import FrameID
+        from perception_eval.common.transform import HomogeneousMatrix, TransformDict
+        from pyquaternion import Quaternion
+
+        a, b = case["motion"]["rot"]
+        n = math.hypot(a, b)
+        yaw = 2.0 * math.atan2(b / n, a / n)
+        e2m = HomogeneousMatrix(tuple(float(v) for v in case["motion"]["t"]), Quaternion(axis=[0, 0, 1], angle=yaw), FrameID.BASE_LINK, FrameID.MAP)
+        em, gm = mk3d(move_box(eb, case["motion"])), mk3d(move_box(gb, case["motion"]))
+        if cont == "lib-converted":
+            em.frame_id = gm.frame_id = FrameID.MAP
+            e, g = convert_objects_to_base_link([em, gm], e2m)
+            return e, g
+        td = TransformDict([e2m])
+        e, g = mk3d(eb), mk3d(gb)
+        e.state.position = td.transform((FrameID.MAP, FrameID.BASE_LINK), em.state.position)
+        g.state.position = td.transform((FrameID.MAP, FrameID.BASE_LINK), gm.state.position)
+        return e, g
+    e, g = mk3d(eb), mk3d(gb)
+    pe, pg = [float(v) for v in eb["pos"]], [float(v) for v in gb["pos"]]
+    if cont == "f64":
+        e.state.position, g.state.position = np.array(pe, dtype=np.float64), np.array(pg, dtype=np.float64)
+    elif cont == "f64-rows":  # two rows of one buffer (vectorised conversion of a frame)
+        buf = np.array([pe, pg], dtype=np.float64)
+        e.state.position, g.state.position = buf[0], buf[1]
+    elif cont == "f64-ctor":  # handed to the constructor rather than assigned
+        e, g = mk3d(eb, np.array(pe, dtype=np.float64)), mk3d(gb, np.array(pg, dtype=np.float64))
+    elif cont == "int":
+        e.state.position, g.state.position = np.array([int(v) for v in pe], dtype=np.int64), np.array([int(v) for v in pg], dtype=np.int64)
+    elif cont == "list":
+        e.state.position, g.state.position = list(pe), list(pg)
+    elif cont == "tuple":
+        pass
+    else:
+        raise ValueError(cont)
+    return e, g
+
+
+def _run_pure(case):
+    from perception_eval.evaluation.matching import object_matching as om
+
+    e, g = _build_pure(case)
+    snap0 = {"est": _snap3d(e), "gt": _snap3d(g)}
+    out = {"postype": [_postype(e), _postype(g)], "snap0": snap0, "steps": [], "mutated": None}
+    for i, op in enumerate(case["ops"]):
+        swapped = op.endswith("~")
+        name = op.rstrip("~")
+        a, b = (g, e) if swapped else (e, g)
+        fa, fb = (_fresh(snap0["gt"]), _fresh(snap0["est"])) if swapped else (_fresh(snap0["est"]), _fresh(snap0["gt"]))
+        if name == "R":
+            v, ref = _result_scores(a, b), _result_scores(fa, fb)
+        else:
+            v, ref = _val(getattr(om, _OPS[name]), a, b), _val(getattr(om, _OPS[name]), fa, fb)
+        out["steps"].append({"op": op, "v": v, "ref": ref})
+        if out["mutated"] is None:
+            now = {"est": _snap3d(e), "gt": _snap3d(g)}
+            if now != snap0:
+                who, what = next((w, f) for w in ("est", "gt") for f in ("position", "orientation", "size") if now[w][f] != snap0[w][f])
+                out["mutated"] = {"step": i, "op": op, "who": who, "what": what,
+                                  "before": [float.fromhex(x) for x in snap0[who][what]], "after": [float.fromhex(x) for x in now[who][what]]}
+    return out
 
 
 # --------------------------------------------------------------------------- model side
@@ -398,6 +556,8 @@ def compare(case, out, resps):
             return d
         if _mval(r["inter"]) != _mval(r["inter_clip"]):
             return f"model: closed form {r['inter']} != clipConvex {r['inter_clip']}"
+        return None
+    if case["kind"] == "pure":
         return None
     return f"unknown kind {case['kind']}"
 
@@ -535,13 +695,113 @@ def _oracle_roi(case, out):
     return None
 
 
+def _oracle_roi_pure(case, out):
+    """the same two ROI objects scored again (after the swapped / self scores) and through the result object"""
+    ra, rb = case["est"], case["gt"]
+    if not (ra[2] > 0 and ra[3] > 0 and rb[2] > 0 and rb[3] > 0) or "again" not in out:
+        return None
+    b = out["base"]
+    for tag, what in (("again", "scored a second time"), ("result", "scored through DynamicObjectWithPerceptionResult"),
+                      ("again_swap", "scored with swapped arguments after the result object")):
+        for k, nm in (("cd", "2-D center distance"), ("iou2d", "2-D IoU")):
+            v = out[tag][k]
+            if not _num(v):
+                return f"{nm} of the same two objects {what} is not a finite number: {v}"
+            if not _close(v, b[k]):
+                return f"{nm} of the same two objects {what} is {v!r}, the first evaluation gave {b[k]!r}"
+    if out.get("roi_changed"):
+        return f"scoring modified its input ROI objects: {out['roi_changed']}"
+    return None
+
+
+def _truth(eb, gb):
+    """the property text evaluated exactly (Fractions) for the ordered pair (estimate, ground truth)"""
+    cd = math.sqrt(float(sum((Fr(eb["pos"][i]) - Fr(gb["pos"][i])) ** 2 for i in range(3))))
+    P, Q = fp_rational(eb), fp_rational(gb)
+    A1, A2 = Fr(eb["size"][0]) * Fr(eb["size"][1]), Fr(gb["size"][0]) * Fr(gb["size"][1])
+    I = clip_area(P, Q)
+    h = z_overlap(eb, gb)
+    V1, V2 = A1 * Fr(eb["size"][2]), A2 * Fr(gb["size"][2])
+    t = {"cd": cd, "iou2d": float(I / (A1 + A2 - I)), "iou3d": float((I * h) / (V1 + V2 - I * h)), "pd": None}
+    d2 = [p[0] * p[0] + p[1] * p[1] for p in Q]
+    order = sorted(range(4), key=lambda i: d2[i])
+    if math.sqrt(float(d2[order[2]])) - math.sqrt(float(d2[order[1]])) >= 1e-7:
+        i, j = order[0], order[1]
+        ms = (sum((P[i][k] - Q[i][k]) ** 2 for k in range(2)) + sum((P[j][k] - Q[j][k]) ** 2 for k in range(2))) / 2
+        t["pd"] = math.sqrt(float(ms))
+    return t
+
+
+def _pure_in_domain(case):
+    eb, gb = case["est"], case["gt"]
+    if not (pos_size(eb) and pos_size(gb)):
+        return False
+    if case["container"] == "int" and any(float(v) != int(v) for b in (eb, gb) for v in b["pos"]):
+        return False  # an int array cannot hold this centre
+    return True
+
+
+_SCORE_NAME = {"cd": "center distance", "pd": "plane distance", "iou2d": "BEV IoU", "iou3d": "3-D IoU"}
+
+
+def _oracle_pure(case, out):
+    """Scores are functions of the two boxes only: whatever container holds the centre, however often and in whatever
+    order the scores of the pair were evaluated before, every score equals (a) the score of freshly built
+    tuple-position objects and (b) the exact value the property text prescribes; and scoring leaves the boxes alone."""
+    eb, gb = case["est"], case["gt"]
+    if not _pure_in_domain(case):
+        return None
+    lib = case["container"] in ("lib-converted", "lib-transform")
+    truth = {False: _truth(eb, gb), True: None}
+    hist = []
+    seen = {}
+    for st in out["steps"]:
+        op = st["op"]
+        swapped = op.endswith("~")
+        name = op.rstrip("~")
+        if swapped and truth[True] is None:
+            truth[True] = _truth(gb, eb)
+        vals = st["v"] if name == "R" else {name: st["v"]}
+        refs = st["ref"] if name == "R" else {name: st["ref"]}
+        via = "DynamicObjectWithPerceptionResult" if name == "R" else "MatchingMethod"
+        ctx = (f"[{via}{', arguments swapped' if swapped else ''}; centres held as {case['container']} ({'/'.join(out['postype'])}); "
+               f"evaluated before on the same two objects: {' '.join(hist) or 'nothing'}]")
+        for k in ("cd", "pd", "iou2d", "iou3d"):
+            if k not in vals:
+                continue
+            v, ref, nm = vals[k], refs[k], _SCORE_NAME[k]
+            if not _num(v):
+                return f"{nm} is not a finite number: {v} {ctx}"
+            if _num(ref) and not _close(v, ref):
+                return f"{nm} = {v!r}, but freshly built objects with the same centres as tuples score {ref!r} {ctx}"
+            tv = truth[swapped][k]
+            if tv is not None:
+                tol = 1e-6 if lib else TOL
+                if not core.close(v, tv, tol, tol):
+                    return f"{nm} = {v!r}, but the exact value for the two boxes is {tv!r} {ctx}"
+            key = (k, swapped)
+            if key in seen and not _close(v, seen[key]):
+                return f"{nm} = {v!r}, an earlier evaluation of the same two objects gave {seen[key]!r} {ctx}"
+            seen.setdefault(key, v)
+            if k != "pd" and (k, not swapped) in seen and not _close(v, seen[(k, not swapped)]):
+                return f"{nm} not symmetric: {v!r} vs {seen[(k, not swapped)]!r} {ctx}"
+        hist.append(op)
+    m = out.get("mutated")
+    if m:
+        return (f"scoring modified its input: {m['who']}.state.{m['what']} was {m['before']} and is {m['after']} after step {m['step']} "
+                f"({m['op']}) of {' '.join(case['ops'])} [centres held as {case['container']} ({'/'.join(out['postype'])})]")
+    return None
+
+
 def oracle(case, out):
     if "err" in out:
         return f"real code raised {out.get('err')}: {out.get('trace', '')[-300:]}"
     if case["kind"] == "box":
         return _oracle_box(case, out)
     if case["kind"] == "roi":
-        return _oracle_roi(case, out)
+        return _oracle_roi(case, out) or _oracle_roi_pure(case, out)
+    if case["kind"] == "pure":
+        return _oracle_pure(case, out)
     return None
 
 
@@ -677,6 +937,8 @@ def gen_box(rng, family):
 FAMILIES = [("random", 6), ("overlap", 5), ("nested", 3), ("touching", 3), ("disjoint", 2), ("sliver", 3), ("equal", 2),
             ("axis", 3), ("tie", 3), ("zdisjoint", 2), ("large", 2), ("degenerate", 1)]
 
+N_PURE_QUICK = 600
+
 WINDOW_OFF = [-1, 0, 1, 2]
 WINDOW_SIZE = [1, 2, 3]
 
@@ -712,8 +974,47 @@ def gen_roi_random(rng):
     return {"kind": "roi", "family": mode, "est": a, "gt": b, "shift": [rng.randint(-500, 500), rng.randint(-500, 500)]}
 
 
+CONTAINERS = [("f64", 5), ("f64-rows", 2), ("f64-ctor", 2), ("lib-converted", 3), ("lib-transform", 2), ("int", 2), ("list", 2), ("tuple", 1)]
+ORDERS = {
+    "cd-pd-iou": ["cd", "pd", "iou2d", "iou3d"],
+    "iou-cd": ["iou2d", "iou3d", "cd", "pd", "iou2d", "iou3d"],
+    "twice": ["cd", "cd", "pd", "pd", "iou2d", "iou2d", "iou3d", "iou3d"],
+    "direct-then-swapped": ["cd", "cd~", "iou2d~", "iou3d~", "pd~", "cd", "pd"],
+    "swapped-first": ["cd~", "cd", "iou2d", "pd", "iou3d", "iou2d~"],
+    "pd-first": ["pd", "iou3d", "pd~", "iou3d~", "cd", "pd"],
+    "result": ["R", "cd", "iou2d", "iou3d", "pd"],
+    "result-twice": ["R", "R"],
+    "result-swapped": ["R", "R~", "R"],
+    "direct-then-result": ["cd", "R"],
+    "iou-then-result": ["iou2d", "iou3d", "pd", "R", "R~"],
+}
+ALL_OPS = ["cd", "pd", "iou2d", "iou3d", "cd~", "pd~", "iou2d~", "iou3d~", "R", "R~"]
+PURE_FAMILIES = [f for f, w in FAMILIES for _ in range(w) if f != "degenerate"]
+
+
+def gen_pure(rng, family=None, container=None, order=None):
+    c = gen_box(rng, family or rng.choice(PURE_FAMILIES))
+    cont = container or rng.choice([k for k, w in CONTAINERS for _ in range(w)])
+    if cont == "int":  # integer centres (an int array cannot hold anything else)
+        for who in ("est", "gt"):
+            c[who]["pos"] = [float(round(v)) for v in c[who]["pos"]]
+    order = order or rng.choice(list(ORDERS) + ["random"] * 4)
+    ops = list(ORDERS[order]) if order in ORDERS else [rng.choice(ALL_OPS) for _ in range(rng.randint(3, 8))]
+    return {"kind": "pure", "family": c["family"], "container": cont, "order": order, "ops": ops, "est": c["est"], "gt": c["gt"], "motion": c["motion"]}
+
+
 def corpus():
     cs = []
+    # purity: the pair of the design-round probe and an identical pair, centres as float64 arrays / library-converted
+    pe = {"pos": [12.0, 3.0, 0.75], "rot": [10, 1], "size": [2.0, 4.5, 1.5]}
+    pg = {"pos": [12.5, 3.5, 1.0], "rot": [6, 1], "size": [2.0, 4.5, 1.5]}
+    for cont, order in (("f64", "cd-pd-iou"), ("f64", "result"), ("lib-converted", "result-twice"), ("lib-transform", "direct-then-swapped"),
+                        ("int", "twice"), ("list", "iou-cd"), ("f64-rows", "swapped-first"), ("f64-ctor", "result-swapped")):
+        ip = (lambda b: dict(b, pos=[float(round(v)) for v in b["pos"]])) if cont == "int" else (lambda b: dict(b))
+        cs.append({"kind": "pure", "family": "corpus", "container": cont, "order": order, "ops": list(ORDERS[order]), "est": ip(pe), "gt": ip(pg),
+                   "motion": {"rot": [13, 2], "t": [100.0, 50.0, 0.0]}})
+    cs.append({"kind": "pure", "family": "corpus", "container": "f64", "order": "result", "ops": list(ORDERS["result"]), "est": pe, "gt": dict(pe),
+               "motion": {"rot": [1, 0], "t": [0.0, 0.0, 0.0]}})
     # hand-written corners: the probe pair of the design round, unit boxes of the repo's own tests, exact ties
     cs.append({"kind": "box", "family": "corpus", "est": {"pos": [1.0, 2.0, 0.5], "rot": [2, 1], "size": [2.0, 4.0, 1.5]},
                "gt": {"pos": [1.5, 2.0, 0.0], "rot": [1, 0], "size": [2.0, 4.0, 2.0]}, "motion": {"rot": [3, 1], "t": [5.0, -7.0, 1.0]}})
@@ -754,6 +1055,12 @@ def generate(rng, tier):
         cases.append({"kind": "roi", "family": "window", "est": list(a), "gt": list(b), "shift": [rng.randint(-5, 5), rng.randint(-5, 5)]})
     for _ in range(1500 if tier == "quick" else 12000):
         cases.append(gen_roi_random(rng))
+    # purity stream: every container x every order at least once, then random combinations
+    for cont, _w in CONTAINERS:
+        for order in list(ORDERS) + ["random"]:
+            cases.append(gen_pure(rng, None, cont, order))
+    for _ in range(N_PURE_QUICK if tier == "quick" else 4000):
+        cases.append(gen_pure(rng))
     return cases
 
 
@@ -769,6 +1076,21 @@ def branches(case, out):
     br = [f"{case['kind']}:{case.get('family')}"]
     if "err" in out:
         return br + ["impl-exception"]
+    if case["kind"] == "pure":
+        ops = case["ops"]
+        if not _pure_in_domain(case):
+            return br + ["trivial"]
+        br += [f"pure:container={case['container']}", f"pure:order={case['order']}", f"pure:postype={out['postype'][0]}"]
+        if any(o.endswith("~") for o in ops):
+            br.append("pure:swapped-step")
+        if any(o.startswith("R") for o in ops):
+            br.append("pure:result-step")
+        if len(set(ops)) < len(ops):
+            br.append("pure:repeated-step")
+        if ops and ops[0].rstrip("~") != "cd" and not ops[0].startswith("R"):
+            br.append("pure:first-score-not-cd")
+        br.append("pure:inputs-" + ("MUTATED" if out.get("mutated") else "unchanged"))
+        return br
     b = out["base"]
     if case["kind"] == "box":
         if not (pos_size(case["est"]) and pos_size(case["gt"])):
@@ -812,7 +1134,12 @@ def branches(case, out):
 def shrink(case):
     import copy
 
-    if case["kind"] == "box":
+    if case["kind"] == "pure":
+        ops = case["ops"]
+        for i in range(len(ops)):
+            if len(ops) > 1:
+                c = copy.deepcopy(case); c["ops"] = ops[:i] + ops[i + 1:]; c["order"] = "shrunk"; yield c
+    if case["kind"] in ("box", "pure"):
         ident = {"rot": [1, 0], "t": [0.0, 0.0, 0.0]}
         if case["motion"] != ident:
             c = copy.deepcopy(case); c["motion"] = ident; yield c
@@ -824,7 +1151,8 @@ def shrink(case):
             for i in range(3):
                 if case[who]["pos"][i] != 0.0:
                     c = copy.deepcopy(case); c[who]["pos"][i] = 0.0; yield c
-                    c = copy.deepcopy(case); c[who]["pos"][i] = float(round(case[who]["pos"][i])); yield c
+                    if float(round(case[who]["pos"][i])) != case[who]["pos"][i]:
+                        c = copy.deepcopy(case); c[who]["pos"][i] = float(round(case[who]["pos"][i])); yield c
                 if case[who]["size"][i] != 1.0:
                     c = copy.deepcopy(case); c[who]["size"][i] = 1.0; yield c
                     r = float(max(1, round(case[who]["size"][i])))
@@ -849,4 +1177,5 @@ def search(rng, st, disagreements):
         if f in known:
             out.extend(gen_box(rng, f) for _ in range(100))
     out.extend(gen_roi_random(rng) for _ in range(300))
+    out.extend(gen_pure(rng) for _ in range(300))
     return out
